@@ -679,3 +679,128 @@ def r8_congruence_residues(ctx):
 
 
 RULES += [r8_congruence_residues]
+
+
+from ..tree import LOG_MACROS   # noqa: E402
+
+
+def r9_normalize_sentinel(ctx):
+    ctx.rule("C08.r9", "dis_interval::normalize: `prev` is initialised to top to mean `no previous interval`, so an interval of the list "
+             "that IS top must reach `return <empty list>` (= top) before any test that can drop it; evaluated for the element kinds "
+             "bottom / top / finite x prev = sentinel / an interval already added", floor=2)
+    import itertools
+
+    class _Unknown(Exception):
+        pass
+
+    def first_exit(n, val):
+        """('ret'|'continue'|'goto'|'push', node) first reached when interpreting n with decided conditions; None = falls through"""
+        if not isinstance(n, dict):
+            return None
+        k = n.get("k")
+        if k == "seq":
+            for x in n.get("b", []):
+                r = first_exit(x, val)
+                if r is not None:
+                    return r
+            return None
+        if k == "if":
+            c = _eval3b(n.get("c"), val)
+            if c is None:
+                raise _Unknown(src(n.get("c"))[:60])
+            return first_exit(n.get("t"), val) if c else (first_exit(n.get("e"), val) if "e" in n else None)
+        if k in ("ret", "continue", "goto", "break"):
+            return (k, n)
+        if k == "do" and n.get("m") in LOG_MACROS:
+            return None         # a logging macro
+        if k in ("while", "for", "do", "rangefor"):
+            raise _Unknown("loop")
+        if k == "label":
+            return first_exit(n.get("b"), val)
+        for x in walk(n):
+            if is_call(x, name=("push_back", "emplace_back")):
+                return ("push", n)
+        return None
+
+    n = 0
+    for f, lst in DI_FILES:
+        if not ctx.db.has_file(f):
+            continue
+        for fn in ctx.db.fns(f, name="normalize"):
+            if not (fn.get("cpk") or "").endswith("::dis_interval") or len(fn.get("params", [])) != 2:
+                continue
+            body = fn["body"]
+            d = local_decls(body)
+            # the sentinel: a local interval initialised with top()
+            sent = [dd for dd in d.values() if "i" in dd and any(is_call(x, name="top") for x in walk(dd["i"])) and
+                    "interval" in (dd.get("TC") or dd.get("T") or "")]
+            loops = [l for l in walk(body) if l.get("k") == "for"]
+            if not loops:
+                continue
+            loop = loops[0]
+            elem = [dd for dd in local_decls(loop.get("b")).values() if "i" in dd and
+                    any(x.get("k") in ("index", "subscript") or is_call(x, name=("operator[]", "at")) for x in walk(dd["i"]))]
+            if not sent or not elem:
+                if not sent:
+                    # no sentinel at all: nothing to confuse
+                    n += 1
+                    ctx.ok("normalize: no top sentinel", fn, body)
+                else:
+                    ctx.skipped("C08.r9|%s|element variable not found" % f, rid="C08.r9")
+                continue
+            pid, eid = sent[0]["id"], elem[0]["id"]
+            bad = None
+            for kind, prev in itertools.product(("BOT", "TOP", "FIN"), ("SENT", "ELEM")):
+                def val(c, kind=kind, prev=prev):
+                    if c.get("k") == "call" and callee(c):
+                        nm = callee(c)["name"]
+                        o = strip(c.get("o")) if c.get("o") is not None else None
+                        if nm in ("is_top", "is_bottom") and isinstance(o, dict) and o.get("k") == "ref":
+                            if o.get("id") == eid:
+                                return (kind == "TOP") if nm == "is_top" else (kind == "BOT")
+                            if o.get("id") == pid:
+                                return (prev == "SENT") if nm == "is_top" else False
+                        if nm in ("operator==", "operator!=") and c.get("a"):
+                            x, y = o, strip(c["a"][0])
+                            ids = {z.get("id") for z in (x, y) if isinstance(z, dict) and z.get("k") == "ref"}
+                            if ids == {pid, eid}:
+                                # intervals already added are neither top nor bottom
+                                if prev == "SENT":
+                                    eq = (kind == "TOP")
+                                elif kind in ("TOP", "BOT"):
+                                    eq = False
+                                else:
+                                    return None
+                                return eq if nm == "operator==" else (not eq)
+                    return None
+                try:
+                    ex = first_exit(loop.get("b"), val)
+                except _Unknown as e:
+                    if kind == "FIN":
+                        continue            # finite elements go on to the merging loop: not this rule's business
+                    ctx.skipped("C08.r9|%s|%s|%s|%s" % (f, kind, prev, e), rid="C08.r9")
+                    continue
+                n += 1
+                if kind == "TOP":
+                    is_top_ret = ex is not None and ex[0] == "ret" and not any(
+                        y.get("k") == "ref" and y.get("rk") in ("local", "param") for y in walk(ex[1].get("v")))
+                    if not is_top_ret:
+                        bad = (kind, prev, ex)
+                        ctx.bad("dis_interval::normalize: for a TOP interval of the list with prev = %s the first exit of the loop body is "
+                                "`%s`, not `return <empty list>`: the interval is dropped and the result is the join of the REMAINING "
+                                "intervals, e.g. ([-3,-3] | [0,1]) || ([-3,-3] | [-1,2]) = [-3,-3]" %
+                                ("its initial top sentinel" if prev == "SENT" else "an added interval", ex[0] if ex else "fall through"),
+                                fn, ex[1] if ex else loop, sig="normalize-drops-top:%s" % prev)
+                    else:
+                        ctx.ok("normalize: top element (prev %s) returns top" % prev, fn, ex[1])
+                elif kind == "BOT":
+                    if ex is not None and ex[0] in ("continue", "goto"):
+                        ctx.ok("normalize: bottom element (prev %s) skipped" % prev, fn, ex[1])
+                    else:
+                        ctx.bad("dis_interval::normalize: a bottom interval of the list is not skipped (first exit `%s`)" %
+                                (ex[0] if ex else "fall through"), fn, ex[1] if ex else loop, sig="normalize-keeps-bottom:%s" % prev)
+    if n == 0:
+        ctx.fail("rule C08.r9: dis_interval::normalize not found in the expected form")
+
+
+RULES += [r9_normalize_sentinel]
